@@ -14,6 +14,13 @@
 From Verif Require Export CPrims.
 Open Scope N_scope.
 
+Require Coq.Strings.String. Import String.StringSyntax.
+(* hash of the token-stream pin (the cpp/ lines of pins/c14c.txt: 13 renderings of serialization.hpp) of the header text this file
+   and PrimsExt.v model; Properties/C14.v requires Gen_Pin_c14c.pin_c14c_sha_cpp to be this one while the bitspan fix is pending *)
+Local Open Scope string_scope.
+Definition modelled_cpp_header_sha : String.string := "2d28b0f4e27ee1337f6c1876985d75c1".
+Local Close Scope string_scope.
+
 Record span := mkspan { sp_data : bytes; sp_size : N; sp_off : N }.
 
 (* any_bitspan::size() *)
